@@ -1865,7 +1865,6 @@ fn tcp_end_to_end(cx: &mut Cx) {
     let victim: Vec<Vec<Vec<u8>>> = vec![vec![b"SET".to_vec(), b"k".to_vec(), b"v".to_vec()], vec![b"GET".to_vec(), b"k".to_vec()], vec![b"PING".to_vec()], vec![b"ECHO".to_vec(), b"a\r\nb".to_vec()]];
     let deep: Vec<Vec<Vec<u8>>> = (0..300).map(|i| if i % 3 == 0 { vec![b"PING".to_vec()] } else if i % 3 == 1 { vec![b"SET".to_vec(), b"k".to_vec(), format!("{}", i).into_bytes()] } else { vec![b"GET".to_vec(), b"k".to_vec()] }).collect();
     let twin_cfg = Cfg { min_pipeline: 1 << 40, batch_threshold: 1 << 20, read_size: 8192, max_buffer: 1_000_000 };
-    let mut port = 21000 + (std::process::id() as u16 % 20000);
     for (ci, case) in cases.iter().enumerate() {
         let path = dir.join(format!("perf_config_{}.toml", ci));
         if case.toml != "<no file>" {
@@ -1877,20 +1876,26 @@ fn tcp_end_to_end(cx: &mut Cx) {
         let mut started: Option<u16> = None;
         let mut refused: Option<String> = None;
         for _attempt in 0..20 {
-            port = if port >= 64000 { 21000 } else { port + 1 };
+            // a port that is FREE right now (asked from the kernel), so that no other process — e.g. the same
+            // harness run by another builder — can be mistaken for our server
+            let port = match std::net::TcpListener::bind("127.0.0.1:0").and_then(|l| l.local_addr()) {
+                Ok(a) => a.port(),
+                Err(_) => continue,
+            };
             let addr = format!("127.0.0.1:{}", port);
             let a2 = addr.clone();
             let h = rt.spawn(async move { redis_sim::production::OptimizedRedisServer::new(a2).run().await.map_err(|e| e.to_string()) });
-            // either the server comes up (connect succeeds) or run() returns an error
+            // either the server comes up (connect succeeds and run() is still running) or run() returns an error
             let up = rt.block_on(async {
-                for _ in 0..300 {
+                for _ in 0..1000 {
+                    tokio::time::sleep(std::time::Duration::from_millis(10)).await;
                     if h.is_finished() {
                         return false;
                     }
                     if tokio::net::TcpStream::connect(&addr).await.is_ok() {
-                        return true;
+                        tokio::time::sleep(std::time::Duration::from_millis(50)).await;
+                        return !h.is_finished();
                     }
-                    tokio::time::sleep(std::time::Duration::from_millis(10)).await;
                 }
                 false
             });
@@ -1900,7 +1905,7 @@ fn tcp_end_to_end(cx: &mut Cx) {
             }
             let msg = rt.block_on(async { match tokio::time::timeout(std::time::Duration::from_secs(2), h).await { Ok(Ok(Err(e))) => e, Ok(Ok(Ok(()))) => "run returned Ok".into(), Ok(Err(e)) => format!("task: {}", e), Err(_) => "no answer".into() } });
             if msg.to_lowercase().contains("address") || msg.contains("in use") {
-                continue; // the port is taken (another builder): next one
+                continue; // the port was taken in between: next one
             }
             refused = Some(msg);
             break;
@@ -1957,9 +1962,9 @@ fn tcp_end_to_end(cx: &mut Cx) {
                     st.write_all(w).await.map_err(|e| e.to_string())?;
                     tokio::task::yield_now().await;
                 }
-                // the client WAITS (does not close) until it has all replies, at most 5 s
+                // the client WAITS (does not close) until it has all replies, at most 20 s
                 let mut buf = vec![0u8; 65536];
-                let deadline = tokio::time::Instant::now() + std::time::Duration::from_secs(5);
+                let deadline = tokio::time::Instant::now() + std::time::Duration::from_secs(20);
                 while decode_replies(&acc).0.len() < expect_n {
                     match tokio::time::timeout_at(deadline, st.read(&mut buf)).await {
                         Ok(Ok(0)) => break,
@@ -1992,7 +1997,7 @@ fn tcp_end_to_end(cx: &mut Cx) {
             let (tvals, _) = decode_replies(&t.written);
             let rp = json!({"perf_config_toml": case.toml, "case": case.label, "connection": pname, "bytes_sent": total, "commands": expect_n, "replies": vals.len(), "first_replies": vals.iter().take(6).map(|v| v.show()).collect::<Vec<_>>(), "expected_first": tvals.iter().take(6).map(|v| v.show()).collect::<Vec<_>>()});
             if vals.len() < expect_n {
-                cx.out.violation("C04:tcp:reply-withheld", "a client that sent a well-formed pipeline over TCP and waits for its replies (without closing) did not receive one reply per command within 5 s", rp);
+                cx.out.violation("C04:tcp:reply-withheld", "a client that sent a well-formed pipeline over TCP and waits for its replies (without closing) did not receive one reply per command within 20 s", rp);
             } else if vals != tvals || rest != 0 {
                 cx.out.violation("C04:tcp:reply-differs-from-in-process", "over TCP (accept loop, configuration from PERF_CONFIG_PATH, server-wide buffer pool) a pipeline is answered differently from the in-process handler", rp);
             }
@@ -2181,7 +2186,7 @@ fn audit() -> serde_json::Value {
        "open": ""},
       {"class": 11, "topic": "harness fragility",
        "covered": "source read from the tree the binary was built against; a failed scan is a violation; skipped MULTI-prefix cases are counted; read sizes below 64 are not combined with multi-kilobyte frames (quadratic re-parse in code and model alike)",
-       "open": "the TCP port is derived from the pid and retried on AddrInUse"}
+       "open": "the TCP port is asked from the kernel (bind to port 0) right before the server starts and the server task is re-checked after the first connect"}
     ])
 }
 
